@@ -48,6 +48,8 @@ pub struct AssetObs {
     pub rec: Records,
     pub env_orders: Vec<OrderRec>,
     pub env_trades: Vec<TradeRec>,
+    /// `order(id)` / `order_status(id)` of the environment for every id, as (record, status code)
+    pub env_by_id: Vec<(OrderRec, u8)>,
 }
 
 pub type EnvObs = Vec<AssetObs>;
@@ -163,6 +165,7 @@ impl<const A: usize, const L: usize> AnyEnv<A, L> {
                     ),
                     env_orders: e.get_orders().into_iter().map(OrderRec::of).collect(),
                     env_trades: e.get_trades().iter().map(TradeRec::of).collect(),
+                    env_by_id: (0..e.get_orders().len()).map(|i| (OrderRec::of(e.order(i)), st_code(e.order_status(i)))).collect(),
                 },
                 AnyEnv::Multi(e) => AssetObs {
                     book: Snap::take(e.get_market().get_order_book(a)),
@@ -178,6 +181,7 @@ impl<const A: usize, const L: usize> AnyEnv<A, L> {
                     ),
                     env_orders: e.get_orders(a).into_iter().map(OrderRec::of).collect(),
                     env_trades: e.get_trades(a).iter().map(TradeRec::of).collect(),
+                    env_by_id: (0..e.get_orders(a).len()).map(|i| (OrderRec::of(e.order((a, i))), st_code(e.order_status((a, i))))).collect(),
                 },
             })
             .collect()
@@ -786,6 +790,19 @@ fn visit<const A: usize, const L: usize>(cfg: &ECfg, st: &mut EStats, node: &ENo
         child.acts = acts.clone();
         child.n_orders = n_after;
         let mut ok = true;
+        // the environment's own getters are views of the book: by list, by id, by status
+        for a in 0..A {
+            let o = &obs[a];
+            let by_id_ok = o.env_by_id.len() == o.book.orders.len() && o.env_by_id.iter().zip(o.book.orders.iter()).all(|((r, st), b)| r == b && *st == b.status);
+            if o.env_orders != o.book.orders || o.env_trades != o.book.trades || !by_id_ok {
+                st.fail(
+                    "getters/environment-getters-differ-from-book".into(),
+                    format!("asset {}: get_orders / get_trades / order(id) / order_status(id) of the environment do not match its book: by id {:?} vs book {:?}", a, o.env_by_id, o.book.orders),
+                    &acts,
+                );
+                ok = false;
+            }
+        }
         match &act {
             Act::Submit(instr) => {
                 child.submits += 1;
